@@ -88,7 +88,7 @@ def tup(*items):
 
 
 # ---------------------------------------------------------------- coq runs
-HEADER = """From Coq Require Import PrimFloat ZArith List Bool String.
+HEADER = """From Coq Require Import PrimFloat ZArith List Bool.
 From MV Require Import Ops FloatFun FInst.
 Import ListNotations.
 Open Scope float_scope.
